@@ -192,8 +192,9 @@ def resolve(target):
 
 
 def bind_args(fn, args, kwargs):
-    node = function_ast(fn)
-    names = [a.arg for a in node.args.args]
+    import inspect
+    fn = inspect.unwrap(fn)
+    names = list(inspect.signature(fn).parameters)
     bound = {}
     for n, v in zip(names, args):
         bound[n] = v
@@ -223,6 +224,12 @@ class Registry:
             if c.selector is None or c.selector(fn, args):
                 return c
         return None
+
+    def has(self, fn):
+        try:
+            return fn in self.by_fn
+        except TypeError:
+            return False
 
     def get(self, name):
         for c in self.all:
@@ -422,6 +429,12 @@ class Verifier:
 
     def verify_instance(self, c, label, combo, results, stats):
         fn = c.fn()
+        import types as _types
+        if not isinstance(fn, _types.FunctionType):
+            results.append(Result('%s[%s]#subset' % (c.name, label), 'undecided', kind='engine',
+                                  detail='out of subset: target is not a plain function (wrapped/decorated): %r' % (fn,)))
+            stats['out_of_subset'].append('wrapped target')
+            return
         work = [[]]
         npath = 0
         base = '%s[%s]' % (c.name, label)
